@@ -536,3 +536,65 @@ pub fn run(kind: &str, seed: u64, cases: u64, replay: Option<&str>, o: &mut Out)
         }
     }
 }
+
+/// `auth` stream (C15): the complete matrix ownership state × contract × privileged variant ×
+/// sender role × with/without funds, each on a fresh deployment.
+pub fn run_auth(o: &mut Out) {
+    let scenarios = ["initial", "pending", "pending_expired", "transferred", "renounced"];
+    let contracts = ["pm", "fm", "em", "fc"];
+    let senders = ["owner", "u1", "u2", "pm", "fm", "out"];
+    let mut id = 0u64;
+    for sc in scenarios.iter() {
+        for c in contracts.iter() {
+            let variants: Vec<&str> = if *c == "fc" { vec!["transfer", "accept", "renounce"] } else { vec!["config", "transfer", "accept", "renounce"] };
+            for v in variants.iter() {
+                for sender in senders.iter() {
+                    for with_funds in [false, true] {
+                        let mut run = crate::streams::hist::Runner::new(WorldCfg::default());
+                        o.raw(&format!("begin {}", id));
+                        id += 1;
+                        let il = run.h.init_line();
+                        o.line(&il, "ok");
+                        run.first_snap(o);
+                        let now = run.h.w.now_ns();
+                        // bring contract c into the scenario's ownership state
+                        match *sc {
+                            "pending" => { run.step(&format!("tx owner 0 {} own transfer u1 -", c), o); }
+                            "pending_expired" => {
+                                run.step(&format!("tx owner 0 {} own transfer u1 {}", c, now + 1000), o);
+                                run.step("advance 2000", o);
+                            }
+                            "transferred" => {
+                                run.step(&format!("tx owner 0 {} own transfer u1 -", c), o);
+                                run.step(&format!("tx u1 0 {} own accept", c), o);
+                            }
+                            "renounced" => { run.step(&format!("tx owner 0 {} own renounce", c), o); }
+                            _ => {}
+                        }
+                        let funds = if with_funds { "1 uom 1" } else { "0" };
+                        let body = match (*c, *v) {
+                            ("pm", "config") => "config - - uusd 777 - - - -".to_string(),
+                            ("fm", "config") => "config - - - - - - 7 - - - -".to_string(),
+                            ("em", "config") => format!("config 172800 {}", now / 1_000_000_000 + 500_000),
+                            (_, "transfer") => "own transfer u2 -".to_string(),
+                            (_, "accept") => "own accept".to_string(),
+                            _ => "own renounce".to_string(),
+                        };
+                        let res = run.step(&format!("tx {} {} {} {}", sender, funds, c, body), o);
+                        // roles after the scenario
+                        let (owner, pending, expired): (Option<&str>, Option<&str>, bool) = match *sc {
+                            "initial" => (Some("owner"), None, false),
+                            "pending" => (Some("owner"), Some("u1"), false),
+                            "pending_expired" => (Some("owner"), Some("u1"), true),
+                            "transferred" => (Some("u1"), None, false),
+                            _ => (None, None, false),
+                        };
+                        o.line(&format!("mon_auth {} {} {} {} {} {}", v, (res == "ok") as u8, (owner == Some(*sender)) as u8,
+                            (pending == Some(*sender)) as u8, expired as u8, with_funds as u8), "ok");
+                        o.raw("end");
+                    }
+                }
+            }
+        }
+    }
+}
